@@ -61,7 +61,10 @@ class C02(Prop):
         for i in range(n):
             native = rng.random() < 0.4
             bad_rate = 0.0 if rng.random() < 0.75 else rng.choice([0.1, 0.3])
-            rows, exp = S.gen_table_grid(rng, native=native, bad_rate=bad_rate)
+            if i % 20 == 7:
+                rows, exp = S.gen_staggered_grid(rng, native=native)    # transposed, a gap in every column
+            else:
+                rows, exp = S.gen_table_grid(rng, native=native, bad_rate=bad_rate)
             lead = rng.choice([0, 0, 1, 3])
             rows = [[] for _ in range(lead)] + rows
             cases.append({"rows": rows, "native": native, "exp": exp, "lead": lead, "tuples": native and rng.random() < 0.5})
